@@ -4,7 +4,6 @@ From Coq Require Import Lia Relations.
 From MWF Require Import Base.Util Base.UtilLemmas Exec.ExecBase Exec.ExecGen Exec.ExecRun Exec.ExecGraph Exec.ExecInv
   Exec.ExecPoll Exec.ExecSteps Exec.ExecPoll2 Exec.ExecPoll3 Exec.ExecPoll4 Exec.ExecHist.
 
-Definition fc_status (v : State) : Prop := v = FAILED \/ v = CANCELLED.
 
 (** failed / cancelled only grow along a history *)
 Definition fc_le (s s' : st) : Prop := forall y, FC s y -> FC s' y.
